@@ -297,6 +297,47 @@ fn check_repository(f: &[u8], index: fai::Index) -> Result<(), String> {
     Ok(())
 }
 
+/// The on-disk flow: fasta::fs::index, fai::fs::write, (bgzip + gzi::fs::write,)
+/// indexed_reader::Builder::build_from_path; results must equal the in-memory ones.
+fn run_path_flow(id: &str, f: &[u8], mode: Mode, regs: &[Reg]) -> Result<Vec<Result<Vec<u8>, String>>, String> {
+    let dir = std::path::PathBuf::from(format!("/tmp/C11/run-{}-{id}", std::process::id()));
+    std::fs::create_dir_all(&dir).map_err(|e| e.to_string())?;
+    let out = (|| -> io::Result<Vec<Result<Vec<u8>, String>>> {
+        let plain = dir.join("ref.fa");
+        std::fs::write(&plain, f)?;
+        let index = fasta::fs::index(&plain)?;
+        let src = match mode {
+            Mode::Bgzf(k) => {
+                let (z, gzi) = bgzip(f, k);
+                let p = dir.join(if k % 2 == 0 { "ref.fa.gz" } else { "ref.fa.bgz" });
+                std::fs::write(&p, z)?;
+                let mut g = p.clone().into_os_string();
+                g.push(".gzi");
+                bgzf::gzi::fs::write(g, &gzi)?;
+                p
+            }
+            _ => plain.clone(),
+        };
+        let mut fai_path = src.clone().into_os_string();
+        fai_path.push(".fai");
+        fai::fs::write(fai_path, &index)?;
+        let mut rd = fasta::io::indexed_reader::Builder::default().build_from_path(&src)?;
+        Ok(regs
+            .iter()
+            .map(|r| {
+                let region = to_region(r);
+                match guarded(AssertUnwindSafe(|| rd.query(&region))) {
+                    Outcome::Panicked(_) => Err("Panic".to_string()),
+                    Outcome::Done(Ok(rec)) => Ok(rec.sequence().as_ref().to_vec()),
+                    Outcome::Done(Err(e)) => Err(format!("Err:{}", nv::errkind(&e))),
+                }
+            })
+            .collect())
+    })();
+    let _ = std::fs::remove_dir_all(&dir);
+    out.map_err(|e| format!("{:?}", e.kind()))
+}
+
 fn fmt_results(rs: &[Result<Vec<u8>, String>]) -> String {
     rs.iter()
         .map(|r| match r {
@@ -637,6 +678,27 @@ fn run(c: &Case) -> Obs {
                     return Obs::fail(fmt_results(&res), "fasta-repository-get", e);
                 }
             }
+            // every 4th case also goes through the file-system flow (fs::index, .fai / .gzi files,
+            // indexed_reader::Builder::build_from_path)
+            if c.kind == "q" && _err.is_none() && c.id.bytes().last().is_some_and(|b| b % 4 == 0) {
+                match run_path_flow(&c.id, &f, mode, &regs) {
+                    Ok(r2) if r2 == res => {}
+                    Ok(r2) => {
+                        return Obs::fail(
+                            fmt_results(&res),
+                            &format!("fasta-indexed-reader-path-flow-{}", mode_name(mode)),
+                            format!("{} vs {}", fmt_results(&r2), fmt_results(&res)),
+                        );
+                    }
+                    Err(e) => {
+                        return Obs::fail(
+                            fmt_results(&res),
+                            &format!("fasta-indexed-reader-path-flow-error-{}", mode_name(mode)),
+                            e,
+                        );
+                    }
+                }
+            }
             let obs = fmt_results(&res);
             // what a start beyond the length returns depends on how the source chunks the foreign
             // bytes (a '>' inside a definition line, BGZF seeks past EOF): modelled for the plain
@@ -944,7 +1006,15 @@ fn push_file_cases(rng: &mut Rng, w: &mut CaseWriter, f: &[u8], with_queries: bo
     if rng.chance(1, 10) {
         rin.push(Reg { name: b"nosuchname".to_vec(), s: Some(1), e: Some(2) });
     }
-    let qmode = if rng.chance(1, 2) { mode } else { gen_mode(rng) };
+    let mut qmode = if rng.chance(1, 2) { mode } else { gen_mode(rng) };
+    if rng.chance(1, 6) {
+        // BGZF block boundary exactly at the start of a sequence line (or one byte around it)
+        let offs: Vec<usize> = naive.iter().flat_map(|n| n.lines.iter().map(|l| l.off)).collect();
+        if !offs.is_empty() {
+            let o = *rng.pick(&offs) as u64 + rng.range(0, 2);
+            qmode = format!("z{}", o.saturating_sub(1).max(1));
+        }
+    }
     w.push("q", vec![hex(f), qmode.clone(), fmt_regions(&rin)]);
     w.push("qb", vec![hex(f), qmode, fmt_regions(&rbe)]);
 }
